@@ -361,6 +361,7 @@ VALUE_ROUNDTRIP = [
     (V2, "$a instance of xs:integer"), (V2, "1 instance of xs:integer?"), (V2, "2 cast as xs:double?"), (V2, "'1' castable as xs:integer?"), (V2, "(1, 2) instance of xs:integer+"),
     (V2, "/r/a instance of element(a, xs:untyped)"), (V2, "//text() instance of text()+"), (V2, "/ instance of document-node(element(r))") , (V3, "(1, 'a') ! (. instance of xs:string)"),
     (V3, "let $f := function($a, $b) { $a || $b } return $f('x', 'y')"), (V31, "[1, 2]?*"), (V31, "(1, 2) => sum()"), (V2, "if (1) then 'a' else \"b\""), (V2, "for $x in (1, 2) return $x * 2"),
+    (V31, "(1, 2) => fn:sum()"), (V31, "[3, 1] => array:sort() => array:head()"), (V31, "(1, 2) => sum()"), (V3, "abs#1(-1)"), (V3, "fn:abs#1(-1)"),
     (V2, "some $x in (1, 2) satisfies $x = 2"), (V2, "(1 to 3)[. > 1]"), (V2, "/r/a/text()"), (V2, "/r/@k = 'v'"), (V2, "xs:date('2000-01-01') + xs:dayTimeDuration('P1D')"),
 ]
 
@@ -417,7 +418,12 @@ def bounded_roundtrip(tier, seed):
             def run(src):
                 try:
                     tok = PARSERS[version]().parse(src)
+                    before = tok.source
                     v = tok.evaluate(XPathContext(root, variables={'a': 1}))
+                    if tok.source != before and src == text:
+                        fails.append({'key': 'the source text of a parsed expression changes when the expression is evaluated', 'expr': text,
+                                      'what': f'XPath {version}: `{text}` has the source `{before}` after parsing and `{tok.source}` after one evaluation'})
+                        tok = PARSERS[version]().parse(src)
                     return tok, ('value', [(type(x).__name__, str(getattr(x, 'name', x))) for x in (v if isinstance(v, list) else [v])])
                 except ElementPathError as e:
                     return None, ('error', e.code)
@@ -458,6 +464,9 @@ PROBES = [
     (('2.0', '3.0', '3.1'), "string-length('it''s')", '4'), (('2.0', '3.0', '3.1'), 'string-length("a""b")', '3'),
     (('2.0', '3.0', '3.1'), 'count (: a:b :) ((1, 2))', '2'), (('2.0', '3.0', '3.1'), 'count(: x::y :)((1, 2, 3))', '3'), (('2.0', '3.0', '3.1'), "concat (: p:q, 'z' :) ('a', 'b')", "'ab'"),
     (('2.0', '3.0', '3.1'), 'string-length (: one :) (: two :) ("ab")', '2'),
+    # arrow operator with function names shared by the fn: and array: namespaces
+    (('3.1',), '(3, 1, 2) => sort() => head()', '1'), (('3.1',), '(3, 1, 2) => reverse()', '[2, 1, 3]'), (('3.1',), '(3, 1, 2) => tail() => count()', '2'),
+    (('3.1',), '(1, -2) => for-each(abs#1) => sum()', '3'), (('3.1',), '(3, 1) => sort() => head()', '1'),
 ]
 NAME_PROBES = ['div.b', 'mod.c', 'to.y', 'for.v', 'and.x', 'or.y', 'if.then', 'union.a', 'eq.b', 'is.c', 'div-b', 'mod_c', 'then', 'else.x', 'return.x', 'instance.of',
                'cast.as', 'idiv.z', 'except.w', 'text.node', 'node.x', 'comment.y', 'element.z', 'item.q']
